@@ -48,7 +48,7 @@ def scenario(sim: Sim) -> None:
     max_len = warn_len + ch.choice("max_extra", [1, 8])
     init_len = min(ch.choice("init_len", [1, 2, 4, 16]), warn_len)
     nsrc = ch.int_between("nsources", 1, 3)
-    ticks = ch.int_between("nticks", 10, 40)
+    ticks = ch.int_between("nticks", 10, sim.scale(40, 100))
     pre = ch.int_between("pre_us", 0, 2 * period_us)
     cost = ch.weighted("cost_mode", [2, 1, 2])
     sim.set_cost_mode(cost, ch.draw("cost_seed", 1 << 16) if cost == 2 else 0)
